@@ -6,6 +6,7 @@
 -/
 import IcontractModel.Spec.PyBind
 import IcontractModel.Lemmas.Capture
+import IcontractModel.Lemmas.BindLemmas
 namespace Icontract
 
 /-- **Every non-variadic parameter** (positional-only, positional-or-keyword, keyword-only; explicit
@@ -17,7 +18,8 @@ theorem C05_nonvariadic_parameter_is_body_value (sig : Signature) (args : List I
     (p : Param) (hp : p ∈ sig) (hnv : p.isVariadic = false) :
     (resolveCall sig args kwargs).get? p.name = (pyValue sig args kwargs p).map Val.obj ∧
     (pyValue sig args kwargs p).isSome = true := by
-  sorry
+  have _ := hres  -- not needed: an accepted call gives `p` a value, which overwrites any placeholder
+  exact resolveCall_nonvariadic sig args kwargs hwf hacc p hp hnv
 
 /-- `_ARGS` is the tuple of the call's positional arguments and `_KWARGS` the dict of its keyword
 arguments (no parameter or keyword may be so named: C19). -/
@@ -26,14 +28,21 @@ theorem C05_args_kwargs_placeholders (sig : Signature) (args : List Id) (kwargs 
     (hkw : ∀ kv ∈ kwargs, kv.1 ≠ "_ARGS" ∧ kv.1 ≠ "_KWARGS") :
     (resolveCall sig args kwargs).get? "_ARGS" = some (.tuple args) ∧
     (resolveCall sig args kwargs).get? "_KWARGS" = some (.dict kwargs) := by
-  sorry
+  constructor
+  · rw [resolveCall_get?_of_not_mem sig args kwargs "_ARGS" (fun p hp => (hres p hp).1) (fun kv h => (hkw kv h).1)]
+    rfl
+  · rw [resolveCall_get?_of_not_mem sig args kwargs "_KWARGS" (fun p hp => (hres p hp).2) (fun kv h => (hkw kv h).2)]
+    rfl
 
 /-- a name that is neither a parameter, nor a keyword of the call, nor a placeholder is not resolved -/
 theorem C05_unprovided_name_is_unresolved (sig : Signature) (args : List Id) (kwargs : List (String × Id))
     (n : String) (h1 : ∀ p ∈ sig, p.name ≠ n) (h2 : ∀ kv ∈ kwargs, kv.1 ≠ n)
     (h3 : n ≠ "_ARGS" ∧ n ≠ "_KWARGS") :
     (resolveCall sig args kwargs).has n = false := by
-  sorry
+  have hA : ("_ARGS" == n) = false := by simpa using fun e => h3.1 e.symm
+  have hK : ("_KWARGS" == n) = false := by simpa using fun e => h3.2 e.symm
+  rw [Kwargs.has_eq_isSome, resolveCall_get?_of_not_mem sig args kwargs n h1 h2]
+  simp [Kwargs.get?, hA, hK]
 
 /-- ... and a condition / capture / error factory asking for an unresolved name makes the call fail
 with a TypeError naming it; nothing is evaluated with a wrong value (the selection raises before
@@ -45,19 +54,55 @@ theorem C05_missing_name_is_type_error (kw : Kwargs) (n : String) (hn : kw.has n
       ∃ ns, n ∈ ns ∧ selectCaptureKwargs s kw = ⟨[], .error (.typeErr (.missingCaptureArgs s.id ns))⟩) ∧
     (∀ (cid : CId) (errArgs : List String), n ∈ errArgs →
       ∃ ns, n ∈ ns ∧ selectErrorKwargs cid errArgs kw = ⟨[], .error (.typeErr (.missingErrorArgs cid ns))⟩) := by
-  sorry
+  have hmiss : ∀ wanted : List String, n ∈ wanted →
+      n ∈ missingNames wanted kw ∧ (missingNames wanted kw).isEmpty = false := by
+    intro wanted hw
+    have hm : n ∈ missingNames wanted kw := by
+      unfold missingNames
+      exact List.mem_filter.mpr ⟨hw, by simp [hn]⟩
+    refine ⟨hm, ?_⟩
+    cases hl : missingNames wanted kw with
+    | nil => rw [hl] at hm; cases hm
+    | cons a l => rfl
+  refine ⟨?_, ?_, ?_⟩
+  · intro c hc
+    obtain ⟨hm, he⟩ := hmiss c.mandatory hc
+    exact ⟨_, hm, by simp [selectConditionKwargs, he, Res.raise]⟩
+  · intro s hs
+    obtain ⟨hm, he⟩ := hmiss s.args hs
+    exact ⟨_, hm, by simp [selectCaptureKwargs, he, Res.raise]⟩
+  · intro cid errArgs hc
+    obtain ⟨hm, he⟩ := hmiss errArgs hc
+    exact ⟨_, hm, by simp [selectErrorKwargs, he, Res.raise]⟩
 
 /-- what a callable receives is exactly the restriction of the resolved arguments to the names it asks
 for: every received pair is a resolved pair, and every resolved pair with an asked name is received -/
 theorem C05_selection_is_restriction (c : Contract) (kw sel : Kwargs)
     (h : (selectConditionKwargs c kw).out = .ok sel) :
     sel = kw.restrict c.args ∧ (∀ p ∈ sel, p.1 ∈ c.args ∧ p ∈ kw) ∧ (∀ p ∈ kw, p.1 ∈ c.args → p ∈ sel) := by
-  sorry
+  have hsel : sel = kw.restrict c.args := by
+    unfold selectConditionKwargs at h
+    by_cases hm : (missingNames c.mandatory kw).isEmpty = true
+    · simp only [hm, if_true, Res.pure_out, Except.ok.injEq] at h
+      exact h.symm
+    · simp only [hm, Bool.false_eq_true, if_false, Res.raise_out] at h
+      cases h
+  subst hsel
+  unfold Kwargs.restrict
+  refine ⟨rfl, ?_, ?_⟩
+  · intro p hp
+    rw [List.mem_filter] at hp
+    exact ⟨by simpa using hp.2, hp.1⟩
+  · intro p hp hn
+    rw [List.mem_filter]
+    exact ⟨hp, by simpa using hn⟩
 
 /-- postconditions additionally get `result` and `OLD` -/
 theorem C05_postconditions_get_result_and_old (ck : Checker) (kw : Kwargs) (old : List (String × Id)) (r : Id)
     (h : (!ck.posts.isEmpty && !ck.snaps.isEmpty) = true) :
     (postKwargs ck kw old r).get? "result" = some (.obj r) ∧ (postKwargs ck kw old r).get? "OLD" = some (.old old) := by
-  sorry
+  unfold postKwargs
+  simp only [h, if_true]
+  exact ⟨Kwargs.get?_set_self _ _ _, by rw [Kwargs.get?_set_ne _ _ _ _ (by decide), Kwargs.get?_set_self]⟩
 
 end Icontract
